@@ -126,6 +126,9 @@ pub struct Runtime {
     pub qnodes: BTreeMap<usize, QNodeRt>,
     /// (dispatching contract, id, payload) -> node run by its reply entry point
     pub reply_lookup: BTreeMap<(String, u64, Vec<u8>), usize>,
+    /// replies the reference expects, per (contract, id, payload) in delivery order: sibling
+    /// sub-messages may share id and payload, each still has a reply node of its own
+    pub reply_queue: BTreeMap<(String, u64, Vec<u8>), std::collections::VecDeque<usize>>,
     pub trace: Vec<TraceEntry>,
     /// custom module log: (sender, tag, fail)
     pub xlog: Vec<(String, u32, bool)>,
@@ -141,9 +144,14 @@ pub fn install(nodes: BTreeMap<usize, NodeRt>, qnodes: BTreeMap<usize, QNodeRt>,
         rt.nodes = nodes;
         rt.qnodes = qnodes;
         rt.reply_lookup = reply_lookup;
+        rt.reply_queue.clear();
         rt.trace.clear();
         rt.xlog.clear();
     });
+}
+
+pub fn install_reply_queue(q: BTreeMap<(String, u64, Vec<u8>), std::collections::VecDeque<usize>>) {
+    RT.with(|rt| rt.borrow_mut().reply_queue = q);
 }
 
 pub fn take_trace() -> (Vec<TraceEntry>, Vec<(String, u32, bool)>) {
@@ -197,7 +205,16 @@ fn run_entry(kind: Kind, tag: u32, storage: &mut dyn Storage, querier: &dyn Quer
     // which node does a reply run? looked up by (contract, id, payload)
     let node = match (node, reply) {
         (Some(n), _) => Some(n),
-        (None, Some(r)) => RT.with(|rt| rt.borrow().reply_lookup.get(&(contract.clone(), r.id, r.payload.to_vec())).copied()),
+        (None, Some(r)) => RT.with(|rt| {
+            let mut rt = rt.borrow_mut();
+            let key = (contract.clone(), r.id, r.payload.to_vec());
+            // the next reply the reference expects for this key; a reply it does not expect falls
+            // back to the table of all sub-messages (and is recorded like any other)
+            match rt.reply_queue.get_mut(&key).and_then(|q| q.pop_front()) {
+                Some(n) => Some(n),
+                None => rt.reply_lookup.get(&key).copied(),
+            }
+        }),
         _ => None,
     };
     let rtn: Option<NodeRt> = node.and_then(|n| RT.with(|rt| rt.borrow().nodes.get(&n).cloned()));
